@@ -4,6 +4,7 @@
 use super::*;
 use garble_lang::register_circuit::{And, Circuit, Input, Inst, Not, Op, Reg, Xor};
 use crate::mpc::data_types::{Auth, Delta, GarbledGate, Key, Label, Mac, Share};
+use crate::mpc::garble::{self, GarblingKey};
 use std::collections::BTreeSet;
 
 include!("/verif/harness/common.rs");
@@ -329,7 +330,9 @@ fn out_circuit(o0: u32, o1: u32) -> Circuit {
         input_regs: vec![1, 1],
         insts: vec![],
         max_reg_count: 2,
-        output_regs: vec![Reg(o0), Reg(o1)],
+        // three output positions; the third repeats the first (non-adjacent duplicate) unless
+        // o0 == o1, where all three name the same register
+        output_regs: vec![Reg(o0), Reg(o1), Reg(o0)],
         and_ops: 0,
     }
 }
@@ -348,7 +351,6 @@ fn output_tail_n2(o0: u32, o1: u32) {
     let peer = [any_opt_bool_mac(), any_opt_bool_mac()];
     let ev = [any_opt_bool(), any_opt_bool()];
     let p_out = [0usize];
-    let uniq: BTreeSet<Reg> = circ.output_regs.iter().copied().collect();
     let [s0, s1] = own;
     let r = seg_output_tail(
         &circ,
@@ -359,22 +361,21 @@ fn output_tail_n2(o0: u32, o1: u32) {
         vec![s0, s1],
         vec![vec![], vec![peer[0], peer[1]]],
         vec![ev[0], ev[1]],
-        uniq,
     );
     let ok = r.is_ok();
     kani::cover!(ok, "output_ok_reachable");
     kani::cover!(!ok, "output_err_reachable");
     if let Ok(bits) = &r {
-        assert!(bits.len() == 2, "C02:output:one-bit-per-output-position(duplicates-preserved)");
-        let regs = [o0 as usize, o1 as usize];
+        assert!(bits.len() == 3, "C02:output:one-bit-per-output-position(duplicates-preserved)");
+        let regs = [o0 as usize, o1 as usize, o0 as usize];
         let mut idx = 0;
-        while idx < 2 {
+        while idx < 3 {
             let w = regs[idx];
             assert!(ev[w].is_some(), "C02:output:evaluator-value-present");
             assert!(peer[w].is_some(), "C02:output:omitted-peer-share-not-accepted");
             if let (Some(v), Some((rb, mac))) = (ev[w], peer[w]) {
                 assert!(mac.0 == own_keys[w] ^ (if rb { delta.0 } else { 0 }), "C03:output:peer-share-MAC-verified");
-                assert!(bits.len() == 2 && bits[idx] == (v ^ own_bits[w] ^ rb), "C02:output:bit==value^own-share^peer-share");
+                assert!(bits.len() == 3 && bits[idx] == (v ^ own_bits[w] ^ rb), "C02:output:bit==value^own-share^peer-share");
             }
             idx += 1;
         }
@@ -404,7 +405,6 @@ output_tail_variant!(c02_output_tail_n2_regs11, 1, 1);
 fn c05_output_tail_non_output_party_gets_nothing() {
     let circ = out_circuit(0, 1);
     let p_out = [1usize];
-    let uniq: BTreeSet<Reg> = circ.output_regs.iter().copied().collect();
     let r = seg_output_tail(
         &circ,
         0,
@@ -414,7 +414,6 @@ fn c05_output_tail_non_output_party_gets_nothing() {
         vec![any_share2(), any_share2()],
         vec![],
         vec![any_opt_bool(), any_opt_bool()],
-        uniq,
     );
     let empty = matches!(&r, Ok(v) if v.is_empty());
     assert!(empty, "C05:output:non-output-party-returns-empty-vector");
@@ -433,8 +432,7 @@ fn output_label_check_n2(o0: u32, o1: u32) {
         if kani::any() { Some((kani::any(), Label(kani::any()))) } else { None },
         if kani::any() { Some((kani::any(), Label(kani::any()))) } else { None },
     ];
-    let uniq: BTreeSet<Reg> = circ.output_regs.iter().copied().collect();
-    let r = seg_output_label_check(&circ, delta, vec![Label(l[0]), Label(l[1])], vec![wl[0], wl[1]], vec![None, None], uniq);
+    let r = seg_output_label_check(&circ, delta, vec![Label(l[0]), Label(l[1])], vec![wl[0], wl[1]], vec![None, None]);
     let ok = r.is_ok();
     kani::cover!(ok, "label_check_ok_reachable");
     kani::cover!(!ok, "label_check_err_reachable");
@@ -600,3 +598,264 @@ fn c05_ip_pre_n3() {
     std::mem::forget(r);
     std::mem::forget(circ);
 }
+
+// ------------------------------------------------------------------------------------------
+// evaluate() AND arm + garble() row construction (n = 2: evaluator 0, garbler 1)
+
+/// What the AEAD layer hands to evaluate(): set by the harness, returned by env_decrypt.
+static mut ENV_DECRYPT: Option<Result<(bool, Vec<Mac>, Label), garble::Error>> = None;
+
+/// Environment stand-in for garble::decrypt inside the cut segment: ChaCha20-Poly1305 is not
+/// the subject (DESIGN §2 item 2); a garbler who knows the row key can make it return any
+/// plaintext, a corrupted row makes it return Err.
+#[allow(static_mut_refs)]
+fn env_decrypt(_k: &GarblingKey, _bytes: &[u8]) -> Result<(bool, Vec<Mac>, Label), garble::Error> {
+    unsafe { ENV_DECRYPT.take().expect("one decrypt per AND gate and garbler") }
+}
+
+/// Stand-in for the evaluator's per-garbler gate iterators (FileOrMemBuf::iter()): yields the
+/// gates it was built with, never a decoding error (the file/bincode layer is outside the cut).
+pub(crate) struct EnvGateIter(pub Option<GarbledGate>);
+pub(crate) struct NoErr;
+impl From<NoErr> for Error {
+    fn from(_: NoErr) -> Self {
+        Error::EmptyMsg
+    }
+}
+impl Iterator for EnvGateIter {
+    type Item = Result<GarbledGate, NoErr>;
+    fn next(&mut self) -> Option<Self::Item> {
+        self.0.take().map(Ok)
+    }
+}
+
+fn any_macs_le2() -> Vec<Mac> {
+    let l: u8 = kani::any();
+    match l {
+        0 => vec![],
+        1 => vec![Mac(kani::any())],
+        _ => vec![Mac(kani::any()), Mac(kani::any())],
+    }
+}
+
+/// C03/C08 - evaluator, one AND gate: whatever the garbler's row decrypts to (any bit, any MAC
+/// vector of length 0..=2, any label; or a decryption error), the arm never panics, and Ok
+/// implies that the garbler's share carried a MAC that verifies under the evaluator's key
+/// for the selected row; the masked output is own row bit ^ garbler bit and the garbler label
+/// is label_share ^ own MAC.
+fn evaluate_and_arm_n2(i: usize) {
+    let delta = Delta(kani::any());
+    let rows = [any_share2(), any_share2(), any_share2(), any_share2()];
+    let own_bit = [rows[0].0, rows[1].0, rows[2].0, rows[3].0];
+    let own_mac1 = [rows[0].1 .0[1].0 .0, rows[1].1 .0[1].0 .0, rows[2].1 .0[1].0 .0, rows[3].1 .0[1].0 .0];
+    let key1 = [rows[0].1 .0[1].1 .0, rows[1].1 .0[1].1 .0, rows[2].1 .0[1].1 .0, rows[3].1 .0[1].1 .0];
+    let dec_ok: bool = kani::any();
+    let r: bool = kani::any();
+    let macs = any_macs_le2();
+    let mlen = macs.len();
+    let m0 = if mlen > 0 { macs[0].0 } else { 0 };
+    let ls: u128 = kani::any();
+    unsafe {
+        ENV_DECRYPT = Some(if dec_ok { Ok((r, macs, Label(ls))) } else { Err(garble::Error::DecryptionFailed) });
+    }
+    let lx = vec![Label(0), Label(kani::any())];
+    let ly = vec![Label(0), Label(kani::any())];
+    let gate = GarbledGate([vec![], vec![], vec![], vec![]]);
+    let mut gg: Vec<EnvGateIter> = vec![EnvGateIter(None), EnvGateIter(Some(gate))];
+    let res = seg_evaluate_and_arm(7, i, 0, 0, 2, delta, rows, &lx, &ly, &mut gg);
+    let ok = res.is_ok();
+    kani::cover!(ok, "and_arm_ok_reachable");
+    kani::cover!(!ok, "and_arm_err_reachable");
+    if let Ok((s, label)) = &res {
+        assert!(dec_ok, "C03:evaluate:undecryptable-row-not-accepted");
+        assert!(mlen >= 1, "C03:evaluate:row-share-without-MAC-not-accepted");
+        assert!(m0 == key1[i] ^ (if r { delta.0 } else { 0 }), "C03:evaluate:row-share-MAC-verified-under-evaluator-key");
+        assert!(*s == (own_bit[i] ^ r), "C01:evaluate:masked-output==own-row-bit^garbler-row-bit");
+        assert!(label.len() == 2 && label[1].0 == ls ^ own_mac1[i], "C01:evaluate:garbler-label==label_share^own-MAC");
+    }
+    std::mem::forget(res);
+    std::mem::forget((lx, ly, gg));
+}
+
+macro_rules! evaluate_and_arm_variant {
+    ($name:ident, $i:expr) => {
+        #[kani::proof]
+        #[kani::unwind(6)]
+        #[kani::stub(std::fmt::format, no_format)]
+        fn $name() {
+            evaluate_and_arm_n2($i);
+        }
+    };
+}
+evaluate_and_arm_variant!(c03_evaluate_and_arm_n2_row0, 0);
+evaluate_and_arm_variant!(c03_evaluate_and_arm_n2_row1, 1);
+evaluate_and_arm_variant!(c03_evaluate_and_arm_n2_row2, 2);
+evaluate_and_arm_variant!(c03_evaluate_and_arm_n2_row3, 3);
+
+fn auth2(m: u128, k: u128, me: usize) -> Auth {
+    // slot `me` is the own slot (zero), the other slot carries (mac, key) towards the peer
+    if me == 0 {
+        Auth(vec![(Mac(0), Key(0)), (Mac(m), Key(k))])
+    } else {
+        Auth(vec![(Mac(m), Key(k)), (Mac(0), Key(0))])
+    }
+}
+
+/// C01/C10 - the authenticated garbled table of one AND gate, both sides (n = 2, evaluator 0,
+/// garbler 1), composed with the evaluator's AND arm: for ALL authenticated shares of the input
+/// masks lambda_x, lambda_y, the output mask lambda_gamma and the AND share sigma
+/// (sigma = lambda_x & lambda_y), every row index i = 2a+b and every pair of global keys:
+///  * garbler row i ^ evaluator row i == (a ^ lambda_x)(b ^ lambda_y) ^ lambda_gamma,
+///  * both row shares carry valid MACs under the other side's key and global key
+///    (including the xor_key(p_eval, delta) correction of row 3),
+///  * if the evaluator decrypts the garbler's row i it accepts, obtains exactly that masked
+///    output value and the garbler's label for it: label_gamma_0 ^ value * delta_garbler.
+#[kani::proof]
+#[kani::unwind(6)]
+#[kani::stub(std::fmt::format, no_format)]
+fn c01_and_gate_table_n2() {
+    let d_e: u128 = kani::any(); // evaluator's global key
+    let d_g: u128 = kani::any(); // garbler's global key
+    // components c: 0 = x, 1 = y, 2 = gamma, 3 = sigma
+    let gb: [bool; 4] = [kani::any(), kani::any(), kani::any(), kani::any()]; // garbler bits
+    let eb: [bool; 4] = [kani::any(), kani::any(), kani::any(), kani::any()]; // evaluator bits
+    let gk: [u128; 4] = [kani::any(), kani::any(), kani::any(), kani::any()]; // garbler keys for evaluator's bits
+    let ek: [u128; 4] = [kani::any(), kani::any(), kani::any(), kani::any()]; // evaluator keys for garbler's bits
+    // MAC relation (representation invariant of preprocessing, C10)
+    let gm = |c: usize| ek[c] ^ (if gb[c] { d_e } else { 0 });
+    let em = |c: usize| gk[c] ^ (if eb[c] { d_g } else { 0 });
+    // AND relation of the preprocessed AND share
+    kani::assume((gb[3] ^ eb[3]) == ((gb[0] ^ eb[0]) & (gb[1] ^ eb[1])));
+    let g_rows = seg_garbler_rows(0, Delta(d_g), gb[3], gb[2], gb[0], gb[1], auth2(gm(3), gk[3], 1), auth2(gm(2), gk[2], 1), auth2(gm(0), gk[0], 1), auth2(gm(1), gk[1], 1));
+    let e_rows = seg_evaluator_rows(eb[3], eb[2], eb[0], eb[1], auth2(em(3), ek[3], 0), auth2(em(2), ek[2], 0), auth2(em(0), ek[0], 0), auth2(em(1), ek[1], 0));
+    let l0: u128 = kani::any();
+    let labels = seg_garbler_row_labels(Delta(d_g), Label(l0), &g_rows[0], &g_rows[1], &g_rows[2], &g_rows[3]);
+    let lam_x = gb[0] ^ eb[0];
+    let lam_y = gb[1] ^ eb[1];
+    let lam_g = gb[2] ^ eb[2];
+    let mut idx = 0;
+    let mut bits_ok = true;
+    let mut macs_ok = true;
+    let mut labels_ok = true;
+    while idx < 4 {
+        let a = idx >= 2;
+        let b = idx % 2 == 1;
+        let z = ((a ^ lam_x) & (b ^ lam_y)) ^ lam_g;
+        bits_ok &= (g_rows[idx].0 ^ e_rows[idx].0) == z;
+        // garbler's MAC towards the evaluator (slot 0) under the evaluator's key (slot 1 of its row)
+        macs_ok &= g_rows[idx].1 .0.len() == 2 && e_rows[idx].1 .0.len() == 2;
+        if g_rows[idx].1 .0.len() == 2 && e_rows[idx].1 .0.len() == 2 {
+            macs_ok &= g_rows[idx].1 .0[0].0 .0 == e_rows[idx].1 .0[1].1 .0 ^ (if g_rows[idx].0 { d_e } else { 0 });
+            macs_ok &= e_rows[idx].1 .0[1].0 .0 == g_rows[idx].1 .0[0].1 .0 ^ (if e_rows[idx].0 { d_g } else { 0 });
+            // what the evaluator reconstructs from the row label and its own MAC
+            labels_ok &= (labels[idx].0 ^ e_rows[idx].1 .0[1].0 .0) == l0 ^ (if z { d_g } else { 0 });
+        }
+        idx += 1;
+    }
+    assert!(bits_ok, "C01:and-table:row_i==(a^lambda_x)(b^lambda_y)^lambda_gamma");
+    assert!(macs_ok, "C10:and-table:row-shares-carry-valid-MACs(incl. row-3 key correction)");
+    assert!(labels_ok, "C01:and-table:row-label^evaluator-MAC==label_gamma_0^value*delta");
+    kani::cover!(lam_x && lam_y && g_rows[3].0, "and_table_nontrivial_reachable");
+    std::mem::forget((g_rows, e_rows));
+}
+
+// ------------------------------------------------------------------------------------------
+// C01 multi-batch: the real producer loops with the batch size as a live-in (so that batch
+// boundaries are crossed with a handful of AND gates)
+
+/// Stand-in for FileOrMemBuf::<Share>::iter(): yields `n` fixed two-party shares.
+pub(crate) struct EnvShareIter(pub usize);
+impl Iterator for EnvShareIter {
+    type Item = Result<Share, NoErr>;
+    fn next(&mut self) -> Option<Self::Item> {
+        if self.0 == 0 {
+            None
+        } else {
+            self.0 -= 1;
+            Some(Ok(Share(false, Auth(vec![(Mac(0), Key(0)), (Mac(0), Key(0))]))))
+        }
+    }
+}
+
+fn env_encrypt(_k: &GarblingKey, _t: (bool, Vec<Mac>, Label)) -> Result<Vec<u8>, garble::Error> {
+    Ok(Vec::new())
+}
+
+fn env_random() -> u128 {
+    0
+}
+
+/// 2 inputs followed by `k` AND gates (register reuse: every AND writes register 2). Built from
+/// literals (no Vec growth in the harness).
+fn and_chain(k: usize) -> Circuit {
+    let i0 = Inst { out: Reg(0), op: Op::Input(Input { party: 0, input: 0 }) };
+    let i1 = Inst { out: Reg(1), op: Op::Input(Input { party: 1, input: 0 }) };
+    let a = Inst { out: Reg(2), op: Op::And(And(Reg(0), Reg(1))) };
+    let insts = match k {
+        3 => vec![i0, i1, a, a, a],
+        4 => vec![i0, i1, a, a, a, a],
+        _ => vec![i0, i1, a, a, a, a, a],
+    };
+    Circuit { input_regs: vec![1, 1], insts, max_reg_count: 3, output_regs: vec![Reg(2)], and_ops: k }
+}
+
+fn chunk_sizes_match(got: &Vec<usize>, total: usize, batch: usize) -> bool {
+    let mut it = chunk_size_iter(total, batch);
+    let mut ok = true;
+    let mut i = 0;
+    while i < got.len() {
+        ok &= it.next() == Some(got[i]);
+        i += 1;
+    }
+    ok && it.next().is_none()
+}
+
+macro_rules! multi_batch {
+    ($name_init:ident, $name_garble:ident, $k:expr, $b:expr, $unw:expr) => {
+        /// init_and_shares(): the chunks written for gen_auth_bits have exactly the sizes
+        /// chunk_size_iter(and_ops, batch) (what `chunks(batch)` of the in-memory variant
+        /// yields), for batch size $b and $k AND gates.
+        #[kani::proof]
+        #[kani::unwind($unw)]
+        #[kani::stub(std::fmt::format, no_format)]
+        fn $name_init() {
+            let batch: usize = $b;
+            let circ = and_chain($k);
+            let sh = || Share(kani::any(), Auth(vec![]));
+            let r = seg_init_and_shares_loop(&circ, batch, EnvShareIter(2 + $k), vec![sh(), sh(), sh()]);
+            let ok = r.is_ok();
+            assert!(ok, "C01:init_and_shares:returns-Ok");
+            if let Ok(ch) = &r {
+                assert!(chunk_sizes_match(ch, $k, batch), "C01:init_and_shares:written-chunks==chunk_size_iter(and_ops,batch)");
+                kani::cover!(ch.len() >= 2, "multi_chunk_reachable");
+            }
+            std::mem::forget(r);
+            std::mem::forget(circ);
+        }
+
+        /// garble() (garbler side): the gate chunks sent to the evaluator have exactly the sizes
+        /// chunk_size_iter(and_ops, batch) that the evaluator's receive loop expects.
+        #[kani::proof]
+        #[kani::unwind($unw)]
+        #[kani::stub(std::fmt::format, no_format)]
+        fn $name_garble() {
+            let batch: usize = $b;
+            let circ = and_chain($k);
+            let sh = || Share(false, Auth(vec![(Mac(0), Key(0)), (Mac(0), Key(0))]));
+            let r = seg_garbler_loop(&circ, 0, Delta(0), vec![sh(), sh(), sh()], vec![Label(0), Label(0), Label(0)], Vec::with_capacity(4), EnvShareIter(2 + $k), EnvShareIter($k), batch);
+            let ok = r.is_ok();
+            assert!(ok, "C01:garble:returns-Ok");
+            if let Ok(ch) = &r {
+                assert!(chunk_sizes_match(ch, $k, batch), "C01:garble:sent-gate-chunks==chunk_size_iter(and_ops,batch)");
+                kani::cover!(ch.len() >= 2, "multi_chunk_reachable");
+            }
+            std::mem::forget(r);
+            std::mem::forget(circ);
+        }
+    };
+}
+multi_batch!(c01_init_and_shares_chunks_k4_b2, c01_garbler_chunks_k4_b2, 4, 2, 7);
+multi_batch!(c01_init_and_shares_chunks_k5_b2, c01_garbler_chunks_k5_b2, 5, 2, 8);
+multi_batch!(c01_init_and_shares_chunks_k3_b1, c01_garbler_chunks_k3_b1, 3, 1, 6);
+multi_batch!(c01_init_and_shares_chunks_k4_b3, c01_garbler_chunks_k4_b3, 4, 3, 7);
+multi_batch!(c01_init_and_shares_chunks_k3_b2, c01_garbler_chunks_k3_b2, 3, 2, 6);
